@@ -582,6 +582,21 @@ theorem beamCX_temperature_outside_raises {E : Ext α} (S : ExtSpec E) (cf wl : 
   rw [this]
 
 
+/-- an interaction energy outside the tabulated range of an interpolated `qeb`, extrapolation not permitted: raises -/
+theorem beamCX_energy_outside_raises {E : Ext α} (S : ExtSpec E) (cf wl : α) (c : CXTable α) (h : WFC c)
+    (h2 : 2 ≤ c.eb.length) (en T d z bf : α) (hen : 0 < en)
+    (hout : Below (c.eb.map E.logc) (E.loge en) ∨ Above (c.eb.map E.logc) (E.loge en)) :
+    beamCX E cf wl false c en T d z bf = Out.valueError := by
+  unfold beamCX
+  simp only []
+  rw [if_neg (not_le.mpr hen)]
+  have : interpOrConst E (kindOf Extrap.quadratic false) (c.eb.map E.logc)
+      (c.qeb.map fun y => E.logc (photonToJ cf y wl)) (E.loge en) = none := by
+    unfold interpOrConst
+    rw [if_pos (by simp [h.leb.1]; omega)]
+    exact S.i1_outside _ _ _ ⟨by simpa using h2, by simp [h.leb.1], sorted_map_logc S h.eb⟩ hout
+  rw [this]
+
 /-- **range policy, extrapolation permitted** (beam CX): never raises -/
 theorem beamCX_extrapolated_returns {E : Ext α} (S : ExtSpec E) (cf wl : α) (c : CXTable α) (h : WFC c)
     (en T d z bf : α) : ∃ v, 0 ≤ v ∧ beamCX E cf wl true c en T d z bf = Out.val v := by
